@@ -532,6 +532,11 @@ func (s *serverStream) SendMsg(m interface{}) error {
 	s.headersSent = true // sent implicitly
 	err := writeProtoMessage(s.w, s.codec, m, false)
 	if err != nil {
+		if _, ok := err.(marshalError); ok {
+			// nothing was written, so the response stream is still intact
+			// and the final status can still be delivered
+			return err
+		}
 		s.writeFailed = true
 	}
 	return err
